@@ -52,8 +52,13 @@ impl Condvar {
         // Release the lock
         mutex.release_lock();
 
-        // Disable the current thread
-        rt::park(location);
+        // Disable the current thread until a notification removes it from the
+        // queue. This is independent of the thread's `park` token.
+        let waiting = rt::execution(|execution| {
+            let thread = execution.threads.active_id();
+            self.state.get(&execution.objects).waiters.contains(&thread)
+        });
+        self.state.branch_acquire(waiting, location);
 
         // Acquire the lock again
         mutex.acquire_lock(location);
@@ -72,7 +77,7 @@ impl Condvar {
             trace!(state = ?self.state, ?thread, "Condvar::notify_one");
 
             if let Some(thread) = thread {
-                execution.threads.unpark(thread);
+                execution.threads.wake(thread);
             }
         })
     }
@@ -87,7 +92,7 @@ impl Condvar {
             trace!(state = ?self.state, threads = ?state.waiters, "Condvar::notify_all");
 
             for thread in state.waiters.drain(..) {
-                execution.threads.unpark(thread);
+                execution.threads.wake(thread);
             }
         })
     }
